@@ -1,1 +1,150 @@
-//! reference model: order
+//! reference model: order statistics by sorting (C12).
+use crate::X;
+
+#[derive(Clone, Copy, Debug, PartialEq)]
+pub enum QMethod {
+    Linear,
+    Lower,
+    Higher,
+    MidPoint,
+}
+pub const QMETHODS: [QMethod; 4] = [QMethod::Linear, QMethod::Lower, QMethod::Higher, QMethod::MidPoint];
+
+pub fn sorted_valid(x: &[X]) -> Vec<f64> {
+    let mut v: Vec<f64> = x.iter().filter_map(|a| *a).collect();
+    v.sort_by(|a, b| a.partial_cmp(b).unwrap());
+    v
+}
+
+fn at(v: &[f64], lo: usize, hi: usize, frac: f64, m: QMethod) -> f64 {
+    match m {
+        QMethod::Lower => v[lo],
+        QMethod::Higher => v[hi],
+        QMethod::MidPoint => (v[lo] + v[hi]) / 2.0,
+        QMethod::Linear => v[lo] + (v[hi] - v[lo]) * frac,
+    }
+}
+
+/// acceptable values of the q-quantile (None = null, only when there is no valid element).
+/// When (n-1)q is within 1e-9 of an integer both neighbouring readings are accepted (DESIGN 5.5).
+pub fn quantile(x: &[X], q: f64, m: QMethod) -> Option<Vec<f64>> {
+    let v = sorted_valid(x);
+    let n = v.len();
+    if n == 0 {
+        return None;
+    }
+    let h = (n - 1) as f64 * q;
+    let r = h.round();
+    let mut out = vec![];
+    if (h - r).abs() < 1e-9 {
+        let r = r as usize;
+        out.push(v[r]);
+        if m != QMethod::Linear {
+            if r >= 1 {
+                out.push(at(&v, r - 1, r, 1.0, m));
+            }
+            if r + 1 < n {
+                out.push(at(&v, r, r + 1, 0.0, m));
+            }
+        }
+    } else {
+        let (lo, hi) = (h.floor() as usize, h.ceil() as usize);
+        out.push(at(&v, lo, hi, h - lo as f64, m));
+    }
+    Some(out)
+}
+
+#[derive(Clone, Copy, Debug, PartialEq)]
+pub enum PMethod {
+    Rank,
+    Weak,
+    Strict,
+}
+
+/// percentile of score; None = null (null score or no valid element)
+pub fn percentile_of(x: &[X], score: X, m: PMethod) -> Option<f64> {
+    let s = score?;
+    let v = sorted_valid(x);
+    let n = v.len();
+    if n == 0 {
+        return None;
+    }
+    let less = v.iter().filter(|a| **a < s).count() as f64;
+    let eq = v.iter().filter(|a| **a == s).count() as f64;
+    Some(match m {
+        PMethod::Rank => (less + if eq > 0.0 { (eq + 1.0) / 2.0 } else { 0.0 }) / n as f64,
+        PMethod::Weak => (less + eq) / n as f64,
+        PMethod::Strict => less / n as f64,
+    })
+}
+
+/// average ranks of the non-null elements (ascending, or descending if rev; fraction of the valid
+/// count if pct); null elements get null
+pub fn rank(x: &[X], pct: bool, rev: bool) -> Vec<X> {
+    let v: Vec<f64> = x.iter().filter_map(|a| *a).collect();
+    let n = v.len() as f64;
+    x.iter()
+        .map(|a| {
+            a.map(|c| {
+                let less = v.iter().filter(|b| **b < c).count() as f64;
+                let eq = v.iter().filter(|b| **b == c).count() as f64;
+                let asc = less + (eq + 1.0) / 2.0;
+                let r = if rev { n + 1.0 - asc } else { asc };
+                if pct {
+                    r / n
+                } else {
+                    r
+                }
+            })
+        })
+        .collect()
+}
+
+/// the k+1 smallest (largest if rev) non-null elements in order, padded with null
+pub fn partition_sorted(x: &[X], k: usize, rev: bool) -> Vec<X> {
+    let mut v = sorted_valid(x);
+    if rev {
+        v.reverse();
+    }
+    let mut out: Vec<X> = v.into_iter().take(k + 1).map(Some).collect();
+    while out.len() < k + 1 {
+        out.push(None);
+    }
+    out
+}
+
+pub fn same_multiset(a: &[X], b: &[X]) -> bool {
+    let key = |v: &X| v.map_or(u64::MAX, |f| (f + 0.0).to_bits());
+    let mut ka: Vec<u64> = a.iter().map(key).collect();
+    let mut kb: Vec<u64> = b.iter().map(key).collect();
+    ka.sort();
+    kb.sort();
+    ka == kb
+}
+
+#[cfg(test)]
+mod tests {
+    use super::*;
+    fn s(v: &[f64]) -> Vec<X> {
+        v.iter().map(|x| if x.is_nan() { None } else { Some(*x) }).collect()
+    }
+    #[test]
+    fn golden() {
+        // repository test: 1..=10
+        let a = s(&[1., 2., 3., 4., 5., 6., 7., 8., 9., 10.]);
+        assert_eq!(quantile(&a, 0.5, QMethod::Linear).unwrap(), vec![5.5]);
+        assert_eq!(quantile(&a, 0.25, QMethod::Lower).unwrap(), vec![3.0]);
+        assert_eq!(quantile(&a, 0.75, QMethod::Higher).unwrap(), vec![8.0]);
+        assert!((quantile(&a, 0.22, QMethod::Linear).unwrap()[0] - 2.98).abs() < 1e-12);
+        // numpy.percentile([1,2,3,4], 50, method='midpoint') = 2.5
+        assert_eq!(quantile(&s(&[1., 2., 3., 4.]), 0.5, QMethod::MidPoint).unwrap(), vec![2.5]);
+        // scipy.stats.percentileofscore([1,2,3,3,4], 3) = 70 ; strict 40 ; weak 80
+        let b = s(&[1., 2., 3., 3., 4.]);
+        assert_eq!(percentile_of(&b, Some(3.), PMethod::Rank), Some(0.7));
+        assert_eq!(percentile_of(&b, Some(3.), PMethod::Strict), Some(0.4));
+        assert_eq!(percentile_of(&b, Some(3.), PMethod::Weak), Some(0.8));
+        // repository test_rank
+        assert_eq!(rank(&s(&[2., 1., f64::NAN, 3., 1.]), false, false), vec![Some(3.), Some(1.5), None, Some(4.), Some(1.5)]);
+        assert_eq!(partition_sorted(&s(&[3., f64::NAN, 1.]), 2, false), vec![Some(1.), Some(3.), None]);
+    }
+}
